@@ -383,6 +383,274 @@ func c20Gen(t *rapid.T) c20Case {
 	return c
 }
 
+// ---- connections accepted just before Close / Shutdown ----
+
+type c20LateCase struct {
+	LMTP     bool   `json:"lmtp,omitempty"`
+	Early    int    `json:"early"`    // connections already being served (0-2)
+	Late     int    `json:"late"`     // connections accepted but not yet registered when the server is closed (1-2)
+	Via      string `json:"via"`      // close | shutdown
+	Greeting bool   `json:"greeting"` // the early connections have greeted (a session exists)
+}
+
+// c20LateRun: the goroutine of a freshly accepted connection is held (verif
+// hook) before the library registers the connection; Close or Shutdown is
+// called; then the goroutine goes on. After Close every connection must be
+// ended by the server - the late ones too; Shutdown must return once the
+// clients have finished.
+func c20LateRun(c c20LateCase) Verdict {
+	r := harness.NewRig(harness.Config{LMTP: c.LMTP}, harness.Script{GateAccept: true})
+	v := Verdict{NonTrivial: true, Classes: []string{"late_" + c.Via}}
+	var early, late []*harness.Wire
+	n := 0
+	for i := 0; i < c.Early; i++ {
+		w, _ := r.Dial()
+		// let it register and greet
+		name := fmt.Sprintf("accept%d", n)
+		n++
+		if !r.Hub.WaitUntil(func() bool { return r.B.GateArrivedLocked(name) }, harness.Watchdog) {
+			r.B.ReleaseAll()
+			w.Finish()
+			return Verdict{Inconclusive: "accept hook not reached (early connection)"}
+		}
+		r.B.Release(name)
+		if st := w.WaitQuiet(); st != harness.QIdle {
+			r.B.ReleaseAll()
+			w.Finish()
+			return Verdict{Inconclusive: "early connection not idle: " + st}
+		}
+		if c.Greeting {
+			w.Exchange([]byte(greetWord(c.LMTP) + " cli\r\n"))
+		}
+		early = append(early, w)
+	}
+	var lateGates []string
+	for i := 0; i < c.Late; i++ {
+		w, _ := r.Dial()
+		name := fmt.Sprintf("accept%d", n)
+		n++
+		if !r.Hub.WaitUntil(func() bool { return r.B.GateArrivedLocked(name) }, harness.Watchdog) {
+			r.B.ReleaseAll()
+			w.Finish()
+			return Verdict{Inconclusive: "accept hook not reached (late connection)"}
+		}
+		lateGates = append(lateGates, name)
+		late = append(late, w)
+	}
+	abortAll := func() {
+		r.B.ReleaseAll()
+		for _, w := range append(early, late...) {
+			w.Abort()
+		}
+	}
+	if c.Via == "close" {
+		done := make(chan error, 1)
+		go func() { done <- r.Srv.Close() }()
+		select {
+		case err := <-done:
+			if err != nil {
+				abortAll()
+				return failf("close-result", "Server.Close returned %v", err)
+			}
+		case <-time.After(harness.Watchdog):
+			stacks := harness.BlockedStacks(harness.ServerGoroutines())
+			abortAll()
+			return failf("deadlock", "Server.Close does not return while a freshly accepted connection has not been registered yet:\n%s", strings.Join(stacks, "\n\n"))
+		}
+		for _, g := range lateGates {
+			r.B.Release(g)
+		}
+		// every connection is ended by the server, without the clients doing anything
+		for i, w := range append(append([]*harness.Wire(nil), early...), late...) {
+			if !r.Hub.WaitUntil(func() bool { return w.S.ClosedLocked() }, 2*time.Second) {
+				kind := "served before Close"
+				if i >= len(early) {
+					kind = "accepted just before Close"
+				}
+				out := w.Recv()
+				abortAll()
+				r.ForceClose()
+				return failf("connection-survives-close", "Server.Close has returned, yet a connection %s is still open and being served (it has received %s)", kind, q(out))
+			}
+		}
+		for _, w := range append(early, late...) {
+			w.CloseWrite()
+		}
+		if !r.Shutdown() {
+			return Verdict{Inconclusive: "watchdog in final join"}
+		}
+	} else {
+		ctx, cancel := context.WithTimeout(context.Background(), harness.Watchdog)
+		defer cancel()
+		done := make(chan error, 1)
+		go func() { done <- r.Srv.Shutdown(ctx) }()
+		// Shutdown waits for the connections; they finish when their clients do
+		for _, g := range lateGates {
+			r.B.Release(g)
+		}
+		for _, w := range append(early, late...) {
+			w.WaitQuiet()
+			w.Send([]byte("QUIT\r\n"))
+		}
+		select {
+		case err := <-done:
+			if err != nil {
+				abortAll()
+				return failf("shutdown-result", "Server.Shutdown returned %v although every client has finished", err)
+			}
+		case <-time.After(harness.Watchdog + time.Second):
+			abortAll()
+			return failf("deadlock", "Server.Shutdown did not return although every client has sent QUIT")
+		}
+		for _, w := range append(early, late...) {
+			w.CloseWrite()
+		}
+		if !r.Shutdown() {
+			return Verdict{Inconclusive: "watchdog in final join"}
+		}
+	}
+	if len(r.Leftover) > 0 {
+		return failf("goroutine-left", "goroutine left behind:\n%s", r.Leftover[0])
+	}
+	if bad := sessionInvariants(r.B.Events(), nil); bad != nil && bad.Tag != "callback-after-logout" {
+		return *bad
+	}
+	return v
+}
+
+// ---- Serve called on a server that has been closed already ----
+
+type c20ServeAfterCase struct {
+	Via string `json:"via"` // close | shutdown
+}
+
+// c20ServeAfterRun: Close (or Shutdown) runs before Serve has registered its
+// listener - `go srv.Serve(l)` followed at once by `srv.Close()` can come out
+// that way. Serve must return all the same, and not accept connections.
+func c20ServeAfterRun(c c20ServeAfterCase) Verdict {
+	hub := harness.NewHub()
+	b := harness.NewBackend(hub, harness.Script{})
+	s := smtp.NewServer(b)
+	s.Domain = "srv"
+	s.ErrorLog = &harness.LogBuf{}
+	l := harness.NewListener(hub)
+	var err error
+	if c.Via == "close" {
+		err = s.Close()
+	} else {
+		err = s.Shutdown(context.Background())
+	}
+	if err != nil {
+		return failf("close-result", "%s on a server that never served returned %v", c.Via, err)
+	}
+	res := make(chan error, 1)
+	go func() { res <- s.Serve(l) }()
+	v := Verdict{NonTrivial: true, Classes: []string{"serve_after_" + c.Via}}
+	select {
+	case <-res:
+	case <-time.After(2 * time.Second):
+		stacks := harness.BlockedStacks(harness.ServerGoroutines())
+		l.Close()
+		<-res
+		if len(stacks) > 0 {
+			return failf("serve-after-close", "Serve was called after %s had returned and does not return: it waits for connections on a server that is closed:\n%s", c.Via, trimTo(stacks[0], 1200))
+		}
+		return Verdict{Inconclusive: "Serve did not return, but no parked library goroutine was found"}
+	}
+	if left := harness.WaitNoServerGoroutines(); len(left) > 0 {
+		return failf("goroutine-left", "goroutine left behind:\n%s", left[0])
+	}
+	return v
+}
+
+// ---- Close and Shutdown called at the same moment ----
+
+type c20RacingCase struct {
+	Callers []string `json:"callers"` // "close" / "shutdown", all released together
+	Conns   int      `json:"conns"`   // idle connections being served (1-2; at least one, so that Serve is known to be running)
+}
+
+// c20RacingRun releases several callers of Close / Shutdown at once. Exactly
+// one of them ends the server (nil, or the context's error); every other one
+// reports ErrServerClosed; nobody panics. Which caller wins is up to the
+// scheduler - the oracle does not care - so this part is a stress test: a
+// violation observed is definite, a pass says less than elsewhere.
+func c20RacingRun(c c20RacingCase) Verdict {
+	r := harness.NewRig(harness.Config{}, harness.Script{})
+	var wires []*harness.Wire
+	for i := 0; i < c.Conns; i++ {
+		w, _ := r.Dial()
+		w.WaitQuiet()
+		wires = append(wires, w)
+	}
+	type res struct {
+		err   error
+		panic interface{}
+	}
+	results := make([]res, len(c.Callers))
+	start := make(chan struct{})
+	var wg sync.WaitGroup
+	ctx, cancel := context.WithTimeout(context.Background(), harness.Watchdog)
+	defer cancel()
+	for i, kind := range c.Callers {
+		wg.Add(1)
+		go func(i int, kind string) {
+			defer wg.Done()
+			defer func() {
+				if p := recover(); p != nil {
+					results[i].panic = p
+				}
+			}()
+			<-start
+			if kind == "close" {
+				results[i].err = r.Srv.Close()
+			} else {
+				results[i].err = r.Srv.Shutdown(ctx)
+			}
+		}(i, kind)
+	}
+	close(start)
+	// Shutdown waits for the connections: let them go
+	for _, w := range wires {
+		w.CloseWrite()
+	}
+	doneCh := make(chan struct{})
+	go func() { wg.Wait(); close(doneCh) }()
+	select {
+	case <-doneCh:
+	case <-time.After(harness.Watchdog + 2*time.Second):
+		for _, w := range wires {
+			w.Abort()
+		}
+		return failf("deadlock", "concurrent Close / Shutdown calls %v did not all return", c.Callers)
+	}
+	for _, w := range wires {
+		w.WaitClosed()
+	}
+	r.Shutdown()
+	v := Verdict{NonTrivial: len(c.Callers) >= 2, Classes: []string{fmt.Sprintf("racing_callers_%d", len(c.Callers))}}
+	winners := 0
+	for i, rs := range results {
+		if rs.panic != nil {
+			return failf("close-panics", "concurrent Close / Shutdown calls %v: caller %d (%s) panicked: %v", c.Callers, i, c.Callers[i], rs.panic)
+		}
+		if rs.err == smtp.ErrServerClosed {
+			continue
+		}
+		winners++
+		if rs.err != nil && !errors.Is(rs.err, context.DeadlineExceeded) {
+			return failf("close-result", "concurrent Close / Shutdown calls %v: caller %d (%s) returned %v", c.Callers, i, c.Callers[i], rs.err)
+		}
+	}
+	if winners != 1 {
+		return failf("close-winners", "concurrent Close / Shutdown calls %v: %d callers were told they had ended the server, want exactly one; results %+v", c.Callers, winners, results)
+	}
+	if len(r.Leftover) > 0 {
+		return failf("goroutine-left", "goroutine left behind:\n%s", r.Leftover[0])
+	}
+	return v
+}
+
 // ---- Accept fault sequences ----
 
 type c20AcceptCase struct {
@@ -530,12 +798,18 @@ func c20AcceptRun(c c20AcceptCase) Verdict {
 var (
 	c20Sub    *subCheck[c20Case]
 	c20Accept *subCheck[c20AcceptCase]
+	c20Late   *subCheck[c20LateCase]
+	c20Racing *subCheck[c20RacingCase]
+	c20After  *subCheck[c20ServeAfterCase]
 )
 
 func init() {
 	registrars = append(registrars, func() {
 		c20Sub = newSub("C20", "schedules", c20Run)
 		c20Accept = newSub("C20", "accept", c20AcceptRun)
+		c20Late = newSub("C20", "late", c20LateRun)
+		c20Racing = newSub("C20", "racing", c20RacingRun)
+		c20After = newSub("C20", "serve-after", c20ServeAfterRun)
 	})
 }
 
@@ -570,9 +844,51 @@ func raceSubtest[C any](t *testing.T, s *subCheck[C], name string, c C) bool {
 
 func TestC20(t *testing.T) {
 	registerAll()
-	st.Rule = "cases = (1-3 connections with generated programs of greet/envelope/BDAT chunks/LAST/DATA/RSET/QUIT/disconnect, deliveries parked on harness gates, an interleaving of the programs chosen by the generator, Server.Close or Shutdown(+context cancel) fired asynchronously at a generated point, optional waiting for quiescence between steps), each executed under the race detector as its own subtest; and all Accept outcome sequences over {temporary error, permanent error, connection} up to the length bound; non-trivial = Close/Shutdown overlapping a callback in flight or gated deliveries with Close/Shutdown, or an Accept sequence with an error; distinct = hash of the whole case"
+	st.Rule = "cases = (1-3 connections with generated programs of greet/envelope/BDAT chunks/LAST/DATA/RSET/QUIT/disconnect, deliveries parked on harness gates, an interleaving of the programs chosen by the generator, Server.Close or Shutdown(+context cancel) fired asynchronously at a generated point, optional waiting for quiescence between steps), each executed under the race detector as its own subtest; and connections accepted but not yet registered when Close / Shutdown is called (verif hook); and all Accept outcome sequences over {temporary error, permanent error, connection} up to the length bound; non-trivial = Close/Shutdown overlapping a callback in flight or gated deliveries with Close/Shutdown, or an Accept sequence with an error; distinct = hash of the whole case"
 	if !regress(t, "C20") {
 		return
+	}
+	// connections accepted just before Close / Shutdown: a small finite product
+	lateIdx := 0
+	for _, lmtp := range []bool{false, true} {
+		for early := 0; early <= 2; early++ {
+			for late := 1; late <= 2; late++ {
+				for _, via := range []string{"close", "shutdown"} {
+					for _, gr := range []bool{false, true} {
+						lateIdx++
+						if !mine(lateIdx) || (early == 0 && gr) {
+							continue
+						}
+						if !raceSubtest(t, c20Late, fmt.Sprintf("late_%d", lateIdx), c20LateCase{LMTP: lmtp, Early: early, Late: late, Via: via, Greeting: gr}) {
+							return
+						}
+					}
+				}
+			}
+		}
+	}
+	for i, via := range []string{"close", "shutdown"} {
+		if mine(i) && !raceSubtest(t, c20After, "serve_after_"+via, c20ServeAfterCase{Via: via}) {
+			return
+		}
+	}
+	// several callers of Close / Shutdown released at once (stress)
+	for i, n := 0, pickTier(150, 600); i < n; i++ {
+		if !mine(i) {
+			continue
+		}
+		k := 2 + (i+seedBase)%7
+		var callers []string
+		for j := 0; j < k; j++ {
+			if (i/7+j+seedBase)%3 == 0 {
+				callers = append(callers, "shutdown")
+			} else {
+				callers = append(callers, "close")
+			}
+		}
+		if !raceSubtest(t, c20Racing, fmt.Sprintf("racing_%d", i), c20RacingCase{Callers: callers, Conns: 1 + i%2}) {
+			return
+		}
 	}
 	// Accept fault sequences, exhaustive
 	maxLen := pickTier(4, 5)
